@@ -385,6 +385,12 @@ SEEDS = {
         needs="two jumps inside one time step",
         detected_by={"C18": "step_search_inner: new threshold in (0,1), gap = 1 - threshold; Inv holds again (after the jump)"},
     ),
+    "C19c": dict(
+        property="C19",
+        change="get_next_abscissa drops the `|dx| >= 3/4 |a-b|` half of the bisection fallback: an interpolated step is no longer bounded by the current bracket",
+        needs="ordinates nearly flat over most of the interval and steep near the end (epsilon well below the ordinates)",
+        detected_by={"C19": "step_epssym_beyond_b: next abscissa lies in the closed bracket"},
+    ),
     "C22c": dict(
         property="C22",
         change="the amplitude clamp only covers rows whose step STARTS at or after the last sample, not those whose midpoint lies beyond it",
